@@ -78,6 +78,7 @@ void scen_c17(mt_case * c) {
           B.various ? "various" : "many", B.n, B.layout ? "interleaved struct" : "separate arrays", B.arg_stride, B.res_stride, B.id_stride, B.attr_stride, B.func_stride,
           B.have_res ? "yes" : "NULL", B.have_ids ? "yes" : "NULL", B.have_attrs ? "yes" : "NULL");
   mt_hash(c->prog.p, c->prog.pos);
+  mt_allow_prelude = 1;
   mt_lib_start(c, &e, 0);
 
   memset(arena, GUARD, sizeof arena);
